@@ -236,6 +236,8 @@ _DEPS = {'C03': ['C04', 'C05'], 'C09': ['C05'], 'C10': ['C07'], 'C11': ['C04'], 
 for _k, _d in _DEPS.items():
     PROPS[_k]['deps'] = sorted(set(PROPS[_k].get('deps') or []) | set(_d))
 PROPS['C16']['modules'] = list(PROPS['C16']['modules']) + ['contracts.iso_api']
+for _k in ('C04', 'C05'):
+    PROPS[_k]['modules'] = list(PROPS[_k]['modules']) + ['contracts.mciipm_vbs', 'contracts.vbs_lists']      # the list/bytes helpers as clients of the blocker
 
 # the frame lint (contracts/lint.py: no state shared between calls or instances) backs every property's per-call contracts
 for _p in PROPS.values():
